@@ -1903,7 +1903,7 @@ impl World for C12 {
         check_plain(scn, Judge { evals: false, streams: true, build: false, battery: false }, cov, prog)
     }
     fn rule(&self) -> String {
-        format!("Each run: 1-3 seeded piecewise functions, 1-4 evaluate_v streams fed through a simulator-owned lazy iterator (bursts of feeds, then pulls, interleaved across streams by the PRNG, with cancel/restart); per pull: exactly one input consumed, result compared bit for bit with pointwise evaluation (non-decreasing prefix) or with the segment selected for the running maximum (after a decrease). {ORDER_RULE}")
+        format!("Each run: 1-5 seeded piecewise functions, 1-9 evaluate_v streams fed through a simulator-owned lazy iterator (bursts of feeds, then pulls, interleaved across streams by the PRNG, with cancel/restart and in-place mutation of the function between stream lifetimes), plus up to two whole-sequence consumptions of fresh streams (collect, fold, count, last, nth, skip, step_by, peekable, by_ref+take, size_hint, Vec input, unbounded cycle input; 0-300 arguments, rarely up to 70 000); per pull: exactly one input consumed, result compared bit for bit with pointwise evaluation (non-decreasing prefix) or with the segment selected for the running maximum (after a decrease). {ORDER_RULE}")
     }
     fn assumptions(&self) -> Vec<String> {
         let mut a = common_assumptions();
